@@ -50,6 +50,9 @@ bool muggle_queue_init(muggle_queue_t *p_queue, size_t capacity)
 {
 	memset(p_queue, 0, sizeof(*p_queue));
 
+	p_queue->head.next = &p_queue->tail;
+	p_queue->tail.prev = &p_queue->head;
+
 	if (capacity > 0)
 	{
 		if (!MUGGLE_DS_CAP_IS_VALID(capacity))
@@ -66,12 +69,10 @@ bool muggle_queue_init(muggle_queue_t *p_queue, size_t capacity)
 		if (!muggle_memory_pool_init(p_queue->pool, capacity, sizeof(muggle_queue_node_t)))
 		{
 			free(p_queue->pool);
+			p_queue->pool = NULL;
 			return false;
 		}
 	}
-
-	p_queue->head.next = &p_queue->tail;
-	p_queue->tail.prev = &p_queue->head;
 
 	return true;
 }
